@@ -133,61 +133,17 @@ func c01(c *Ctx) {
 			c.Ok("goroutine-root", key, p.InstrPos(ri.r.site), "installs a deferred recover before anything else")
 			continue
 		}
-		reach := unprotectedReach(g, fn)
-		var fns []*ssa.Function
-		for f := range reach {
-			fns = append(fns, f)
+		probs, nfns := goroutinePanicSites(p, g, fn)
+		bad := len(probs)
+		for _, pr := range probs {
+			c.Violate("unrecovered-goroutine", key+": "+pr.key, pr.pos, pr.msg)
 		}
-		sort.Slice(fns, func(i, j int) bool { return fns[i].String() < fns[j].String() })
-		bad := 0
-		for _, f := range fns {
-			path := strings.Join(reach[f], " > ")
-			for _, b := range f.Blocks {
-				for _, in := range b.Instrs {
-					switch x := in.(type) {
-					case *ssa.Panic:
-						if strings.Contains(Render(x.X), "blocking select matched no case") {
-							continue // go/ssa's synthetic default of a blocking select; unreachable
-						}
-						bad++
-						c.Violate("unrecovered-goroutine", key+": panic in "+shortFn(f), p.InstrPos(x), "a goroutine started on behalf of a connection runs outside the per-connection recover and can reach this explicit panic via "+path+": client input that gets here terminates the whole process")
-					case *ssa.TypeAssert:
-						if !x.CommaOk {
-							bad++
-							c.Violate("unrecovered-goroutine", key+": unchecked type assertion in "+shortFn(f), p.InstrPos(x), "unchecked type assertion "+RenderN(x, 2)+" in an unrecovered goroutine ("+path+")")
-						}
-					case ssa.CallInstruction:
-						if k := killSite(x); k != "" {
-							bad++
-							c.Violate("unrecovered-goroutine", key+": "+k+" in "+shortFn(f), p.InstrPos(x), "an unrecovered goroutine can reach this "+k+" site via "+path)
-						}
-					}
-				}
-			}
-			// implicit panics: unproven index/slice/make
-			pr := zone.New(f)
-			ord := 0
-			for _, b := range f.Blocks {
-				for _, in := range b.Instrs {
-					switch in.(type) {
-					case *ssa.IndexAddr, *ssa.Index, *ssa.Slice, *ssa.MakeSlice:
-					default:
-						continue
-					}
-					for _, o := range pr.Obligations(in) {
-						ord++
-						if ok, why := pr.Prove(o, in); !ok {
-							bad++
-							c.Violate("unrecovered-goroutine", fmt.Sprintf("%s: %s #%d %s", key, shortFn(f), ord, o.What), p.InstrPos(in), "index/slice not provably in range in an unrecovered goroutine ("+path+"): "+RenderN(in.(ssa.Value), 3)+" – "+why)
-						}
-					}
-				}
-			}
-		}
+		fns := make([]struct{}, nfns)
 		if bad == 0 {
 			c.Ok("unrecovered-goroutine", key, p.InstrPos(ri.r.site), fmt.Sprintf("no recover, but nothing in its same-goroutine reach (%d functions) can panic explicitly or by an unproven index/slice/assertion", len(fns)))
 		}
 	}
+	c01DispatchConfined(c)
 	c.Floor("goroutine-root", 1, "vnc serve")
 	c.Floor("unrecovered-goroutine", 4, "ftp pump, ftp passive accept, smtp pump, vnc ticker")
 	// exit sites anywhere under a listed Handle
@@ -830,4 +786,58 @@ func c01DecoderLoops(c *Ctx, reach map[*ssa.Function]bool) {
 		}
 	}
 	c.Check(nSeek >= 4, "decoder-seek-forward", "decoder Seek sites found", "-", fmt.Sprint(nSeek), "fewer decoder Seek calls than the IPP look-ahead code is known to have")
+}
+
+type panicSite struct{ key, pos, msg string }
+
+// goroutinePanicSites lists what can panic on the goroutine rooted at fn without a recover in between: explicit
+// panics, unchecked type assertions, kill sites and index/slice/make operations the zone prover cannot discharge.
+func goroutinePanicSites(p *Program, g *callgraph.Graph, fn *ssa.Function) (out []panicSite, nfns int) {
+	reach := unprotectedReach(g, fn)
+	var fns []*ssa.Function
+	for f := range reach {
+		fns = append(fns, f)
+	}
+	sort.Slice(fns, func(i, j int) bool { return fns[i].String() < fns[j].String() })
+	for _, f := range fns {
+		path := strings.Join(reach[f], " > ")
+		for _, b := range f.Blocks {
+			for _, in := range b.Instrs {
+				switch x := in.(type) {
+				case *ssa.Panic:
+					if strings.Contains(Render(x.X), "blocking select matched no case") {
+						continue // go/ssa's synthetic default of a blocking select; unreachable
+					}
+					out = append(out, panicSite{"panic in " + shortFn(f), p.InstrPos(x), "a goroutine started on behalf of a connection runs outside the per-connection recover and can reach this explicit panic via " + path + ": client input that gets here terminates the whole process"})
+				case *ssa.TypeAssert:
+					if !x.CommaOk {
+						out = append(out, panicSite{"unchecked type assertion in " + shortFn(f), p.InstrPos(x), "unchecked type assertion " + RenderN(x, 2) + " in an unrecovered goroutine (" + path + ")"})
+					}
+				case ssa.CallInstruction:
+					if k := killSite(x); k != "" {
+						out = append(out, panicSite{k + " in " + shortFn(f), p.InstrPos(x), "an unrecovered goroutine can reach this " + k + " site via " + path})
+					}
+				}
+			}
+		}
+		// implicit panics: unproven index/slice/make
+		pr := zone.New(f)
+		ord := 0
+		for _, b := range f.Blocks {
+			for _, in := range b.Instrs {
+				switch in.(type) {
+				case *ssa.IndexAddr, *ssa.Index, *ssa.Slice, *ssa.MakeSlice:
+				default:
+					continue
+				}
+				for _, o := range pr.Obligations(in) {
+					ord++
+					if ok, why := pr.Prove(o, in); !ok {
+						out = append(out, panicSite{fmt.Sprintf("%s #%d %s", shortFn(f), ord, o.What), p.InstrPos(in), "index/slice not provably in range in an unrecovered goroutine (" + path + "): " + RenderN(in.(ssa.Value), 3) + " – " + why})
+					}
+				}
+			}
+		}
+	}
+	return out, len(fns)
 }
